@@ -801,6 +801,10 @@ class Normaliser:
         if fname is None or fname not in self.funcs:
             return None
         g = self.funcs[fname]
+        if any(isinstance(x, ast.Raise) for x in g.body):
+            # a helper that (also) leaves by raising unconditionally at its top level: not a value to substitute.  In particular the
+            # Python body of a function implemented through numba.extending.overload is a stub `raise NotImplementedError`.
+            return None
         is_method = fname.startswith('self.')
         a = g.args
         if a.vararg or a.kwonlyargs or any(isinstance(x, ast.Starred) for x in call.args):
